@@ -3,7 +3,7 @@
    getOverlappingStructDefinition), generator/setup.go, generator/validate.go and the
    builders of builder/*.go (rule order and Matches predicates come from Extracted.v).
    Output: the table of method plans (Plan.v) or a diagnostic class. *)
-From Coq Require Import List NArith Bool String DecimalString.
+From Coq Require Import List NArith ZArith Bool String DecimalString.
 From GV Require Import Base Ty Conf Extracted Plan.
 (* custom functions: Plan.fdecl / ftable (roles assigned by Funcs.fdecl_of) *)
 Import ListNotations.
@@ -46,13 +46,14 @@ Section gen.
   Variable e : env.
   Variable conv_common : common.   (* converter-level settings: what generated sub-methods get *)
   Variable out_pkg : N.            (* output package *)
+  Variable enum_excluded : list N. (* named types excluded from enum handling (converter-level enum:exclude) *)
   Variable FT : ftable.            (* custom functions by index *)
   Variable ext : list N.           (* generator.extend: registered extend functions (setup.go), registration order *)
   Variable smeths : list (N * rstr * N).   (* (named type, method name, function): argument-less methods usable as sources *)
 
   Definition sub_conf : mconf :=
     {| m_common := conv_common; m_fields := []; m_automap := []; m_raw_field_settings := false;
-       m_UpdateTarget := false; m_constructor := None |}.
+       m_UpdateTarget := false; m_constructor := None; m_enum_map := []; m_enum_transforms := []; m_enum_excluded := enum_excluded |}.
 
   (* ---- method table (method.Index: entries by signature; Get returns the first whose contexts are available) ---- *)
   Definition sig_matches (m : gmethod) (s t : ty) : bool := negb (g_update m) && ty_eqb (g_src m) s && ty_eqb (g_tgt m) t.
@@ -420,6 +421,91 @@ Section gen.
   Definition of_assign (tv : tvar) (t : ty) (a : aplan) : vplan :=
     match tv with TVZero => POfAssign t a | TVCtor init to_ptr => PInit init to_ptr a end.
 
+  (* ---------------- builder/enum.go ---------------- *)
+  Definition enum_consts (t : ty) : list (rstr * Z) :=
+    match t with TNamed id => match lookup e id with Some d => n_consts d | None => [] end | _ => [] end.
+  Definition is_action (s : rstr) : bool := match s with 64 :: _ => true | _ => false end.      (* strings.HasPrefix(s, "@") *)
+  Fixpoint str_ltb (a b : rstr) : bool :=
+    match a, b with
+    | [], [] => false
+    | [], _ => true
+    | _, [] => false
+    | x :: a', y :: b' => (x <? y) || ((x =? y) && str_ltb a' b')
+    end.
+  Fixpoint insert_sorted (x : rstr * Z) (l : list (rstr * Z)) : list (rstr * Z) :=
+    match l with
+    | [] => [x]
+    | y :: r => if str_ltb (fst x) (fst y) then x :: l else y :: insert_sorted x r
+    end.
+  Definition sorted_members (ms : list (rstr * Z)) : list (rstr * Z) := fold_left (fun acc x => insert_sorted x acc) ms [].
+  Definition member_value (ms : list (rstr * Z)) (name : rstr) : option Z :=
+    match find (fun m => rstr_eqb (fst m) name) ms with Some m => Some (snd m) | None => None end.
+  Definition map_last (m : list (rstr * rstr)) (k : rstr) : option rstr :=
+    match find (fun kv => rstr_eqb (fst kv) k) (rev m) with Some kv => Some (snd kv) | None => None end.
+
+  (* executeTransformers: each transformer keeps the rewritten names that are target members; it must keep at
+     least one; later transformers override earlier ones *)
+  Fixpoint run_transformers (trs : list (list (rstr * rstr))) (tgt : list (rstr * Z)) (acc : list (rstr * rstr)) : option (list (rstr * rstr)) :=
+    match trs with
+    | [] => Some acc
+    | tr :: r => match filter (fun kv => match member_value tgt (snd kv) with Some _ => true | None => false end) tr with
+                 | [] => None
+                 | m => run_transformers r tgt (acc ++ m)
+                 end
+    end.
+
+  (* caseAction *)
+  Definition case_action (ctx : bctx) (tgt : list (rstr * Z)) (name : rstr) : M eaction :=
+    if is_action name then
+      if rstr_eqb name (s2r "@ignore"%string) then ret EAIgnore
+      else if rstr_eqb name (s2r "@panic"%string) then ret EAPanic
+      else if rstr_eqb name (s2r "@error"%string) then (let! ok := return_error ctx in if ok then ret EAError else fail D_ENUM)
+      else fail D_ENUM
+    else match member_value tgt name with Some v => ret (EASet v) | None => fail D_ENUM end.
+
+  (* enumTargetMismatches *)
+  Definition target_mismatch (tgt : list (rstr * Z)) (prev name : rstr) : bool :=
+    if negb (is_action name) && negb (is_action prev)
+    then negb (option_eqb Z.eqb (member_value tgt prev) (member_value tgt name))
+    else negb (rstr_eqb name prev).
+
+  (* the loop over the source members in name order: (value, source name, target name) of the cases emitted so far *)
+  Fixpoint enum_cases (ctx : bctx) (tgt : list (rstr * Z)) (emap tmap : list (rstr * rstr)) (ms : list (rstr * Z))
+           (seen : list (Z * rstr)) (acc : list (Z * eaction)) : M (list (Z * eaction)) :=
+    match ms with
+    | [] => ret (rev acc)
+    | (name, v) :: r =>
+      let tname := match map_last emap name with
+                   | Some x => x
+                   | None => match map_last tmap name with Some x => x | None => name end
+                   end in
+      let! act := case_action ctx tgt tname in
+      match find (fun sv => Z.eqb (fst sv) v) seen with
+      | Some prev => if target_mismatch tgt (snd prev) tname then fail D_ENUM else enum_cases ctx tgt emap tmap r seen acc
+      | None => enum_cases ctx tgt emap tmap r (seen ++ [(v, tname)]) ((v, act) :: acc)
+      end
+    end.
+
+  Definition build_enum (ctx : bctx) (s t : ty) : M vplan :=
+    let! tv := target_var ctx s t in
+    let conf := bc_conf ctx in
+    let src := enum_consts s in let tgt := enum_consts t in
+    let own := ty_eqb (bc_ftarget ctx) t in
+    match run_transformers (m_enum_transforms conf) tgt [] with
+    | None => fail D_ENUM
+    | Some tmap =>
+      let! cases := enum_cases ctx tgt (m_enum_map conf) tmap (sorted_members src) [] [] in
+      match c_Enum_Unknown (m_common conf) with
+      | [] => fail D_ENUM
+      | unk =>
+        let! dflt := case_action ctx tgt unk in
+        (* configured keys that are no source member (only checked on the method's own target) *)
+        if own && negb (forallb (fun kv => match member_value src (fst kv) with Some _ => true | None => false end) (m_enum_map conf))
+        then fail D_ENUM
+        else ret (PEnum (match tv with TVZero => None | TVCtor ip tp => Some (ip, tp) end) t cases dflt)
+      end
+    end.
+
   (* ---------------- the mutually recursive core ---------------- *)
   Fixpoint build (fuel : nat) (ctx : bctx) (srcvar : N) (s t : ty) {struct fuel} : M vplan :=
     match fuel with
@@ -528,7 +614,7 @@ Section gen.
            else let '(su, tu) := x_findUnderlyingExtendMapping e (has_method (b_tab st)) (bc_conf ctx) s t in
                 build f ctx LV_VALUE (if su then under e s else s) (if tu then under e t else t)
          | 1 => ret PShare
-         | 2 => fail D_UNMODELLED
+         | 2 => build_enum ctx s t
          | 3 => let! p := build f ctx srcvar s (f_PointerInner e t) in ret (PRef false p)
          | 4 => if b_ctor st && cc_DefaultUpdate (bc_conf ctx)
                 then let! tv := target_var ctx s t in
